@@ -452,6 +452,11 @@ def run(ck, facts, tier, only_types=None):
     nd_, tb_ = list(ck.not_decided), list(ck.trusted)
     c10.run(ck, facts, tier, only={"R10.4"})
     ck.not_decided[:], ck.trusted[:] = nd_, tb_
+    # a named calendar is stored by name only: the name it stores must be the name it was given and parsed from (C06 R06.3), or it reloads as another calendar
+    from rules import c06
+    nd_, tb_ = list(ck.not_decided), list(ck.trusted)
+    c06.run(ck, facts, tier, only={"R06.3"})
+    ck.not_decided[:], ck.trusted[:] = nd_, tb_
     # S16.9: loaders accept every well-shaped object (the converse of C20's R20.6, decided by the same path analysis)
     from rules import c20
     with ck.restrict({"S16.9"}):
